@@ -36,6 +36,8 @@ verus! {
 //@include spec/rewrites.rs
 //@include spec/colour.rs
 //@include spec/sem_laws.rs
+//@include spec/labs.rs
+//@include spec/ext.rs
 //@fmtfns
 
 //@assume eval_node
@@ -67,6 +69,13 @@ verus! {
 //@verify model_check_formula
 //@assume from_single_tree
 //@verify model_check_formula_unsafe_ex
+
+//@verify collect_unique_wild_cards_recursive
+//@verify collect_unique_wild_cards
+//@verify validate_and_divide_wild_cards
+//@verify extend_context_with_wild_cards
+//@assume parse_and_minimize_extended_formula
+//@verify parse_and_validate_extended
 
 fn main() {}
 } // verus!
